@@ -448,7 +448,9 @@ public:
   {
     static_assert(std::is_pointer_v<T>,
                   "Operator -> only supported for pointer types");
-    return reinterpret_cast<const T_OpDerefRet*>(impl().get_raw_value());
+    auto ptr = impl().get_raw_value();
+    detail::dynamic_check(ptr != nullptr, "Dereferencing a null pointer");
+    return reinterpret_cast<const T_OpDerefRet*>(ptr);
   }
 
   inline T_OpDerefRet* operator->()
